@@ -42,8 +42,10 @@ def run(chk):
         "public entry point. Structural side rules justify the primitives the analysis trusts."
     )
     chk.rule("ENTRY", "no public entry point writes to a pre-existing object or a module-level container (summaries MUT, global writes)")
+    chk.rule("PRIMv", "ColExpr.map_subtree interpreted on a stub tree using every child slot of every node class: input untouched, callback gets fresh copies, every node once, children before parents")
     chk.rule("PRIM", "map_subtree copies each node, rebuilds its children recursively and only then applies g")
     chk.rule("UPD", "Cache.update interpreted on every verb sequence up to the bound never modifies the cache of its input table (every field compared before / after)")
+    chk.rule("CLONEv", "AstNode.clone() interpreted on a stub pipeline with every verb class, aliases and a self-join: input untouched, all nodes / expression objects / identities new, every column reference denotes the clone of its column")
     chk.rule("CLONE", "every _clone rebuilds all node-bearing and expression-bearing fields (clone() is deep-fresh)")
     chk.rule("BACKEND", "pipe-layer calls into back-end export/build_query pass <ast>.clone()")
     chk.rule("FTYPE", "ftype(agg_is_window=<not None>) is only called on fresh or verb-owned expression trees")
@@ -129,10 +131,87 @@ def _node_at(mod, lineno):
     return best
 
 
+def _prim_semantic(chk):
+    """PRIMv: ColExpr.map_subtree interpreted on a stub tree that uses every child slot of every node class"""
+    from ..exprsim import ExprWorld
+    from ..interp import Native, Obj, PyRaise, SymbolicBranch
+    from ..source import AnalysisError
+
+    ce = chk.repo.mod("tree.col_expr")
+    f = ce.func("ColExpr.map_subtree")
+    try:
+        w = ExprWorld(chk.repo)
+        root = w.sample_tree()
+        before = w.children_struct(root)
+        originals = {id(o) for o in w.expr_nodes(root)}
+        n_exprs = len(w.expr_nodes(root))  # Order nodes included: the kwargs of a function are mapped through the same primitive
+        calls = []
+
+        def g(node):
+            calls.append(node)
+            return node
+
+        res = w.it.call(w.cls("ColExpr").methods["map_subtree"], [root, Native(g, "g")], {}, f, w.env)
+        after = w.children_struct(root)
+    except (AnalysisError, SymbolicBranch) as e:
+        chk.undecided.append(f"PRIMv: map_subtree could not be interpreted on the stub tree: {str(e)[:160]}")
+        return False
+    except PyRaise as p:
+        chk.ob("PRIMv", ce, f, "map_subtree on the sample tree", False, f"ColExpr.map_subtree raises {p.name} on a well-formed tree: {p.msg}")
+        return True
+    chk.ob("PRIMv", ce, f, "map_subtree leaves the input tree untouched (every object and container compared by identity)", before == after,
+           "ColExpr.map_subtree modifies the expression tree it is given (an attribute or a child container of an input node changed): "
+           "the caller's expression objects are rewritten by every verb that maps over them")  # fmt: skip
+    handed = [id(o) for o in calls]
+    fresh = [i for i in handed if i not in originals]
+    chk.ob("PRIMv", ce, f, f"the callback receives copies, never the caller's own nodes ({len(fresh)}/{len(handed)} fresh)", len(fresh) == len(handed),
+           "ColExpr.map_subtree hands input nodes themselves to the callback: a callback that sets attributes (ftype / dtype caches, "
+           "column resolution) writes into the caller's expression")  # fmt: skip
+    chk.ob("PRIMv", ce, f, f"the callback sees every expression node exactly once ({len(handed)} calls, {n_exprs} nodes)", len(handed) == n_exprs and len(set(handed)) == len(handed),
+           f"ColExpr.map_subtree calls the callback {len(handed)} times on a tree of {n_exprs} expression nodes: some child slot is not "
+           "rebuilt (stays shared with the input) or is visited twice")  # fmt: skip
+    # children before parents: when g gets a node, the nodes below it have been handed over already
+    seen = set()
+    order_ok = True
+    for o in calls:
+        below = [x for x in w.expr_nodes(o) if x is not o]
+        if any(id(x) not in seen for x in below):
+            order_ok = False
+        seen.add(id(o))
+    chk.ob("PRIMv", ce, f, "children are mapped before their parent (post-order)", order_ok,
+           "ColExpr.map_subtree applies the callback to a node before its children were rebuilt: the callback sees stale (input) children")  # fmt: skip
+    chk.ob("PRIMv", ce, f, "the result is a new root", isinstance(res, Obj) and id(res) not in originals,
+           "ColExpr.map_subtree returns the input root itself")  # fmt: skip
+    # Order.map_subtree: the ordering wrapper is copied, its expression is mapped through the same primitive
+    fo = ce.func("Order.map_subtree")
+    try:
+        inner = w.new("ColFn", op=None, args=[w.new("Col", name="k", _uuid="u-k", _dtype=None, _ftype=None, _ast=None)], context_kwargs={}, _dtype=None, _ftype=None)
+        order = w.new("Order", order_by=inner, descending=True, nulls_last=None)
+        before = w.children_struct(order)
+        originals = {id(o) for o in w.expr_nodes(order)}
+        calls.clear()
+        res = w.it.call(w.cls("Order").methods["map_subtree"], [order, Native(g, "g")], {}, fo, w.env)
+        ok = (
+            w.children_struct(order) == before and isinstance(res, Obj) and res.cls.name == "Order" and id(res) not in originals
+            and len(calls) == 2 and all(id(c) not in originals for c in calls) and res.attrs.get("order_by") is calls[-1]
+            and res.attrs.get("descending") is True
+        )  # fmt: skip
+        chk.ob("PRIMv", ce, fo, "Order.map_subtree: fresh Order around the mapped expression, flags kept, input untouched", ok,
+               "Order.map_subtree does not return a fresh Order whose expression was rebuilt through ColExpr.map_subtree (or it modifies its input)")  # fmt: skip
+    except (AnalysisError, SymbolicBranch) as e:
+        chk.undecided.append(f"PRIMv: Order.map_subtree could not be interpreted: {str(e)[:160]}")
+        return False
+    except PyRaise as p:
+        chk.ob("PRIMv", ce, fo, "Order.map_subtree on a sample", False, f"Order.map_subtree raises {p.name}: {p.msg}")
+    return True
+
+
 def _prim_rule(chk, sym):
+    decided = _prim_semantic(chk)
     ce = chk.repo.mod("tree.col_expr")
     n = 0
-    for q in ("ColExpr.map_subtree", "Order.map_subtree"):
+    # the shape of the two primitives is only consulted when their behaviour could not be interpreted (PRIMv undecided)
+    for q in () if decided else ("ColExpr.map_subtree", "Order.map_subtree"):
         f = ce.func(q)
         n += 1
         body = [s for s in f.body if not (isinstance(s, ast.Expr) and isinstance(s.value, ast.Constant))]
@@ -171,13 +250,80 @@ def _prim_rule(chk, sym):
                wa == ra or (not wa and not ra),
                f"{ci.name}.map_children rewrites {sorted(wa)} but iter_children yields from {sorted(ra)}: children that are "
                "traversed but not rebuilt stay shared with the caller's expression")  # fmt: skip
-    chk.floor("PRIM", "primitive definitions", n, 7)
+    chk.floor("PRIM", "primitive definitions", n, 5)
+
+
+def _clone_semantic(chk):
+    """CLONEv: AstNode.clone() interpreted on a stub pipeline that uses every verb class (tree/verbs.py and tree/col_expr.py
+    interpreted together); returns True when decided"""
+    from ..exprsim import CloneWorld, ExprWorld
+    from ..interp import Obj, PyRaise, SymbolicBranch
+
+    vmod = chk.repo.mod("tree.verbs")
+    anchor = vmod.func("Verb._clone")
+    try:
+        w = CloneWorld(chk.repo)
+        root = w.sample()
+        before = ExprWorld.children_struct(root)
+        cl = w.p.call(w.p.method(root, "clone"), [])
+        after = ExprWorld.children_struct(root)
+        n0, n1 = w.nodes(root), w.nodes(cl)
+        refs0, refs1 = w.col_refs(root), w.col_refs(cl)
+        s0, s1 = w.def_sites(root), w.def_sites(cl)
+    except (AnalysisError, SymbolicBranch) as e:
+        chk.undecided.append(f"CLONEv: clone() could not be interpreted on the stub pipeline: {str(e)[:200]}")
+        return False
+    except PyRaise as p:
+        chk.ob("CLONEv", vmod, anchor, "clone() of the sample pipeline", False, f"clone() raises {p.name} on a well-formed tree: {p.msg}")
+        return True
+    classes = sorted({n.cls.name for n in n0})
+    chk.ob("CLONEv", vmod, anchor, f"clone() leaves the tree untouched ({len(n0)} nodes, classes {classes})", before == after,
+           "clone() modifies the tree it copies (an attribute or container of an original node changed)")  # fmt: skip
+    same_shape = [a.cls.name for a in n0] == [b.cls.name for b in n1]
+    shared_nodes = [a.cls.name for a in n1 if any(a is b for b in n0)]
+    chk.ob("CLONEv", vmod, anchor, "every node of the clone is a new object of the same class", same_shape and not shared_nodes,
+           f"clone() shares nodes with the original tree ({shared_nodes}) or changes its shape: a compiler that rewrites the clone in place "
+           "(alias names, needed columns, grouping lists) rewrites the user's table")  # fmt: skip
+    ew = ExprWorld.__new__(ExprWorld)
+
+    def exprs(nodes):
+        out = []
+        for n in nodes:
+            for k, v in n.attrs.items():
+                if k not in ("child", "right", "cols"):
+                    out += ExprWorld.expr_nodes(ew, v)
+        return out
+
+    e0 = {id(x) for x in exprs(n0)}
+    shared = [f"{x.cls.name}" for x in exprs(n1) if id(x) in e0]
+    chk.ob("CLONEv", vmod, anchor, f"every expression object of the clone is new ({len(exprs(n1))} objects)", not shared,
+           f"clone() shares expression objects with the original tree ({sorted(set(shared))}): caches written on them during compilation "
+           "(ftype / dtype, resolved columns) leak into the user's expressions")  # fmt: skip
+    ids0 = {u for n in n0 for u in (n.attrs.get("uuids") or [])} | {c.attrs["_uuid"] for n in n0 if n.cls.name == "StubLeaf" for c in n.attrs["cols"].values()}
+    ids1 = {u for n in n1 for u in (n.attrs.get("uuids") or [])} | {c.attrs["_uuid"] for n in n1 if n.cls.name == "StubLeaf" for c in n.attrs["cols"].values()}
+    chk.ob("CLONEv", vmod, anchor, f"column identities are regenerated ({len(ids1)} identities)", len(ids1) == len(ids0) and not (ids0 & ids1),
+           f"the clone keeps column identities of the original ({len(ids0 & ids1)} shared): a self-join of a table with itself resolves both "
+           "sides to the same columns")  # fmt: skip
+    bad = []
+    if len(refs0) != len(refs1):
+        bad.append(f"{len(refs0)} references in the original, {len(refs1)} in the clone")
+    for (i, k, c0), (j, k2, c1) in zip(refs0, refs1):
+        d0, d1 = s0.get(c0.attrs["_uuid"]), s1.get(c1.attrs["_uuid"])
+        a0 = next((x for x, n in enumerate(n0) if n is c0.attrs["_ast"]), None)
+        a1 = next((x for x, n in enumerate(n1) if n is c1.attrs["_ast"]), None)
+        if (i, k) != (j, k2) or d0 is None or d0 != d1 or a0 != a1:
+            bad.append(f"{n0[i].cls.name}.{k}: `{c0.attrs['name']}` defined at {d0} / table node {a0} -> clone {d1} / {a1}")
+    chk.ob("CLONEv", vmod, anchor, f"every column reference of the clone denotes the clone of the column it denoted ({len(refs0)} references, through aliases and a self-join)",
+           not bad, "after clone() a column reference resolves to another column / table node: " + "; ".join(bad[:4]))  # fmt: skip
+    return True
 
 
 def _clone_rule(chk, sym):
     vmod = chk.repo.mod("tree.verbs")
     n = 0
-    for ci in [sym.cls("Verb")] + sym.verb_classes():
+    decided = _clone_semantic(chk)
+    # the spelling of the verb classes' _clone methods is only consulted when clone() could not be interpreted
+    for ci in [] if decided else [sym.cls("Verb")] + sym.verb_classes():
         fields = ci.all_fields()
         node_fields = [f for f, a in fields.items() if "AstNode" in a]
         expr_fields = [f for f, a in fields.items() if any(x in a for x in ("ColExpr", "Order", "Col]"))]
@@ -229,11 +375,12 @@ def _clone_rule(chk, sym):
             )
             chk.ob("CLONE", ci.module, node, f"{ci.name}._clone constructs a new {ci.name}", ctor,
                    f"{ci.name}._clone does not construct a new table implementation: create_aliases would rename the user's table object")  # fmt: skip
-    chk.floor("CLONE", "_clone implementations judged", n, 15)
+    chk.floor("CLONE", "_clone implementations judged", n, 3)
     ast_mod = chk.repo.mod("tree.ast")
     cl = ast_mod.func("AstNode.clone")
     chk.ob("CLONE", ast_mod, cl, "AstNode.clone returns self._clone()[0]", "self._clone()[0]" in norm(cl),
            "AstNode.clone no longer returns the first component of _clone()")  # fmt: skip
+    return decided
 
 
 BACKEND_ENTRY_METHODS = {"export", "build_query", "build_select", "compile_ast"}
